@@ -221,6 +221,19 @@ func rateLookup(c rateCase, path string) (ev rateEvent) {
 		inv := &bill.Invoice{Regime: tax.WithRegime(lcode(c.CC)), IssueDate: other, ValueDate: &date, Lines: []*bill.Line{line()}}
 		inv.SetTags(tags...)
 		err = inv.Calculate()
+	case "invoice-mixed":
+		// a line taxed in another country (explicit percentage) precedes the line under test: each combo is
+		// resolved in its own regime, the one before it has no say
+		oc := "PT"
+		if c.CC == "PT" {
+			oc = "ES"
+		}
+		fp := num.MakePercentage(10, 2)
+		first := &bill.Line{Quantity: mustAmount("1"), Item: &org.Item{Name: "f", Price: &price},
+			Taxes: tax.Set{&tax.Combo{Category: "VAT", Country: lcode(oc), Percent: &fp}}}
+		inv := &bill.Invoice{Regime: tax.WithRegime(lcode(c.CC)), IssueDate: date, Lines: []*bill.Line{first, line()}}
+		inv.SetTags(tags...)
+		err = inv.Calculate()
 	case "invoice-customer":
 		// a supplier of another regime invoicing with the customer's rates: the table is the customer's
 		sup := "DE"
@@ -282,7 +295,7 @@ func ratesRun(seed int64, nrand int, in, out string) error {
 	if err != nil {
 		return err
 	}
-	paths := []string{"direct", "invoice-issue", "invoice-value", "order-value", "invoice-preset", "invoice-customer", "delivery-value", "delivery-issue", "order-issue"}
+	paths := []string{"direct", "invoice-issue", "invoice-value", "order-value", "invoice-preset", "invoice-mixed", "invoice-customer", "delivery-value", "delivery-issue", "order-issue"}
 	emit := func(c rateCase) {
 		for _, p := range paths {
 			w.Emit(rateLookup(c, p))
